@@ -169,7 +169,7 @@ func cmdReplay(args []string) {
 		os.Exit(0)
 	}
 	for _, t := range v.Tags {
-		if t == "crash" {
+		if t == "crash" || t == "job-replay" {
 			// the job process died: re-run the whole job in a child process
 			self, _ := os.Executable()
 			cmd := exec.Command(self, "job", "-prop", v.Property, "-tier", v.Tier, "-universe", v.Universe, "-out", os.DevNull)
